@@ -205,7 +205,16 @@ func (g *tg) template(d int) val.V {
 		case 4:
 			return val.N()
 		case 5:
-			return val.M(map[string]val.V{val.KwMark + "m": call("unquote", sym("p0")), "s": val.I(1)}) // maps are literal
+			// maps are literal, whatever they hold
+			switch g.pick("tmapk", 4) {
+			case 0:
+				return val.M(map[string]val.V{val.KwMark + "k": val.Vc(sym("p0"), sym("a"))})
+			case 1:
+				return val.M(map[string]val.V{val.KwMark + "k": val.M(map[string]val.V{val.KwMark + "j": val.Vc(sym("p1"))}), "s": val.I(1)})
+			case 2:
+				return val.M(map[string]val.V{val.KwMark + "k": val.Vc(call("unquote", sym("p0"))), val.KwMark + "c": val.I(0)})
+			}
+			return val.M(map[string]val.V{val.KwMark + "m": call("unquote", sym("p0")), "s": val.I(1)})
 		case 6:
 			return val.SetOf("a", val.KwMark+"b")
 		}
